@@ -16,6 +16,7 @@ import (
 	"k8s.io/client-go/tools/record"
 
 	"encoding/json"
+	"strconv"
 
 	"github.com/koordinator-sh/koordinator/apis/configuration"
 	slov1alpha1 "github.com/koordinator-sh/koordinator/apis/slo/v1alpha1"
@@ -633,6 +634,70 @@ func ZzvC20Codec() {
 		for e := range back.NodeStrategies {
 			observe("back_entry"+string(rune('0'+e)), back.NodeStrategies[e].ResourceThresholdStrategy)
 		}
+	}
+	zzverif.Reach("end")
+}
+
+// ZzvC20Docs: hand-written resource-threshold documents of the kinds json.Marshal never produces (explicit
+// nulls, case-variant, escaped and duplicate keys, unknown keys, null selector / strategy / entry list) with
+// two symbolic numbers spliced into the text; the expected layering is written out per document.
+func ZzvC20Docs() {
+	v := zzverif.Int64("v", -zzvB, zzvB)
+	w := zzverif.Int64("w", -zzvB, zzvB)
+	V, W := strconv.FormatInt(v, 10), strconv.FormatInt(w, 10)
+	const sel = `"nodeSelector":{"matchLabels":{"a":"1"}}`
+	def := sloconfig.DefaultResourceThresholdStrategy()
+	dCPU, dMem := *def.CPUSuppressThresholdPercent, *def.MemoryEvictThresholdPercent
+	type want struct {
+		cpu, mem int64
+		enable   bool
+	}
+	type doc struct {
+		text               string
+		matched, unmatched want // node {a=1}, node without labels
+	}
+	docs := []doc{
+		// explicit null at the cluster layer sets nothing; a case-variant key in the entry sets the field
+		{`{"clusterStrategy":{"cpuSuppressThresholdPercent":null,"memoryEvictThresholdPercent":` + V + `},"nodeStrategies":[{` + sel + `,"CPUSUPPRESSTHRESHOLDPERCENT":` + W + `}]}`,
+			want{w, v, false}, want{dCPU, v, false}},
+		// duplicate keys: the last one counts
+		{`{"clusterStrategy":{"memoryEvictThresholdPercent":` + V + `},"nodeStrategies":[{` + sel + `,"memoryEvictThresholdPercent":1,"memoryEvictThresholdPercent":` + W + `}]}`,
+			want{dCPU, w, false}, want{dCPU, v, false}},
+		// unknown keys at every level are ignored
+		{`{"x":[1,{"y":null}],"clusterStrategy":{"x":{"enable":true},"memoryEvictThresholdPercent":` + V + `},"nodeStrategies":[{"x":"y",` + sel + `,"cpuSuppressThresholdPercent":` + W + `}]}`,
+			want{w, v, false}, want{dCPU, v, false}},
+		// null in an entry is "not set": the cluster value shows through
+		{`{"clusterStrategy":{"enable":true,"cpuSuppressThresholdPercent":` + V + `},"nodeStrategies":[{` + sel + `,"enable":null,"cpuSuppressThresholdPercent":null,"memoryEvictThresholdPercent":` + W + `}]}`,
+			want{v, w, true}, want{v, dMem, true}},
+		// a null selector selects nothing
+		{`{"clusterStrategy":{"cpuSuppressThresholdPercent":` + V + `},"nodeStrategies":[{"name":"n","nodeSelector":null,"cpuSuppressThresholdPercent":` + W + `}]}`,
+			want{v, dMem, false}, want{v, dMem, false}},
+		// a null cluster strategy: entries are layered over the defaults
+		{`{"clusterStrategy":null,"nodeStrategies":[{` + sel + `,"memoryEvictThresholdPercent":` + W + `}]}`,
+			want{dCPU, w, false}, want{dCPU, dMem, false}},
+		// a null entry list
+		{`{"clusterStrategy":{"memoryEvictThresholdPercent":` + V + `,"enable":true},"nodeStrategies":null}`,
+			want{dCPU, v, true}, want{dCPU, v, true}},
+		// escaped key, white space, an empty selector (everything) after a non-matching entry
+		{"{ \"clusterStrategy\" : { \"\\u0065nable\" : true } ,\n \"nodeStrategies\" : [ {\"nodeSelector\":{\"matchLabels\":{\"b\":\"1\"}},\"cpuSuppressThresholdPercent\":1}, {\"nodeSelector\":{},\"cpuSuppressThresholdPercent\":" + W + "} ] }",
+			want{w, dMem, true}, want{w, dMem, true}},
+	}
+	k := zzverif.Choice("doc", len(docs))
+	h, r := zzvHandler()
+	h.syncNodeSLOSpecIfChanged(zzvCM(configuration.ResourceThresholdConfigKey, docs[k].text, true))
+	for n, labels := range []map[string]string{{"a": "1"}, nil} {
+		spec, err := r.getNodeSLOSpec(&corev1.Node{ObjectMeta: metav1.ObjectMeta{Name: "n", Labels: labels}}, nil)
+		zzverif.Assert(err == nil && spec != nil && spec.ResourceUsedThresholdWithBE != nil, "a node always gets the section")
+		got := spec.ResourceUsedThresholdWithBE
+		wt := docs[k].matched
+		if n == 1 {
+			wt = docs[k].unmatched
+		}
+		zzverif.Assert(got.CPUSuppressThresholdPercent != nil && *got.CPUSuppressThresholdPercent == wt.cpu, "hand-written document: cpuSuppressThresholdPercent is layered as stated")
+		zzverif.Assert(got.MemoryEvictThresholdPercent != nil && *got.MemoryEvictThresholdPercent == wt.mem, "hand-written document: memoryEvictThresholdPercent is layered as stated")
+		zzverif.Assert(got.Enable != nil && *got.Enable == wt.enable, "hand-written document: enable is layered as stated")
+		zzverif.Observe("cpu"+string(rune('0'+n)), *got.CPUSuppressThresholdPercent)
+		zzverif.Observe("mem"+string(rune('0'+n)), *got.MemoryEvictThresholdPercent)
 	}
 	zzverif.Reach("end")
 }
